@@ -763,29 +763,39 @@ impl DateUtilities for DateTime {
     }
 
     fn clear_until_year(&self) -> Self {
+        let (days, nanoseconds) = remove_offset_from_dn(0, 0, self.offset.resolve());
         Self {
+            days,
+            nanoseconds,
             offset: self.offset,
-            ..Default::default()
         }
     }
 
     fn clear_until_month(&self) -> Self {
-        let year = days_to_date(self.days).0;
+        let offset_seconds = self.offset.resolve();
+
+        let (days, _) = add_offset_to_dn(self.days, self.nanoseconds, offset_seconds);
+        let year = days_to_date(days).0;
         let new_days = date_to_days(year, 1, 1).unwrap();
+        let (days, nanoseconds) = remove_offset_from_dn(new_days, 0, offset_seconds);
         Self {
-            days: new_days,
+            days,
+            nanoseconds,
             offset: self.offset,
-            ..Default::default()
         }
     }
 
     fn clear_until_day(&self) -> Self {
-        let (year, month, _) = days_to_date(self.days);
+        let offset_seconds = self.offset.resolve();
+
+        let (days, _) = add_offset_to_dn(self.days, self.nanoseconds, offset_seconds);
+        let (year, month, _) = days_to_date(days);
         let new_days = date_to_days(year, month, 1).unwrap();
+        let (days, nanoseconds) = remove_offset_from_dn(new_days, 0, offset_seconds);
         Self {
-            days: new_days,
+            days,
+            nanoseconds,
             offset: self.offset,
-            ..Default::default()
         }
     }
 
